@@ -828,8 +828,8 @@ fn close_drain_case() {
 
 // ------------------------------------------------------------------------------------------------ C08 / C11 / C12: record_boundary (draining unread input) on its own
 
-// @harness name=c08_glue_record_boundary props=C08,C11,C12 tier=quick timeout=1800 rmbody=ioerr,nogrow,nowaiters,nodropreq mem=24 unwindset=Request::<'_,.*>::record_boundary::.closure.0.$:4;Request::<'_,.*>::poll_output$:4;drop_glue::<.slab::Entry<.*>.>$:2
-// @bound Request::record_boundary in the middle of an unread record (payload_rem = 1, active stream None) against the parser contract (any consumption, replies, boundary reached or not, <= 1 error: AbortRequest or a fatal one); reader: 1 byte then EOF, <= 1 Pending; writer counting, <= 1 short write, <= 1 Pending; polled up to 4 times
+// @harness name=c08_glue_record_boundary props=C08,C11,C12 tier=manual timeout=1800 rmbody=ioerr,nogrow,nowaiters,nodropreq mem=24 unwindset=Request::<'_,.*>::record_boundary::.closure.0.$:3;Request::<'_,.*>::poll_output$:3;drop_glue::<.slab::Entry<.*>.>$:2
+// @bound Request::record_boundary in the middle of an unread record (payload_rem = 1, active stream None) against the parser contract (any consumption, replies, boundary reached or not, <= 1 error: AbortRequest or a fatal one); reader: no more bytes (EOF) after <= 1 Pending; writer counting, whole writes, <= 1 Pending; polled up to 3 times
 // @functions Request::record_boundary, Request::poll_output
 #[kani::proof]
 #[kani::unwind(6)]
@@ -841,7 +841,7 @@ fn c08_glue_record_boundary() {
     unsafe { sv::GS_ERR_BUDGET = 1; sv::GS_OUT_TOTAL = 0; }
     let raw = [0u8; sv::B];
     let parser = sv::mk_code(&cfg, raw, (0, 0, 0, 0), 1, fcgi::Role::Responder, 7, None, 1, 0, Vec::with_capacity(32), 0);
-    let mut req = Request { parser, input: CountR::new(1, 1), output: Arc::new(Mutex::new(CountW::new(1, 1))), lock: None, writeable: true };
+    let mut req = Request { parser, input: CountR::new(0, 1), output: Arc::new(Mutex::new(CountW::new(1, 0))), lock: None, writeable: true };
     let rp: *const CountR = &req.input;
     let wp: *const Mutex<CountW> = Arc::as_ptr(&req.output);
     let pp: *const stream::Parser<'_> = &req.parser;
@@ -850,7 +850,7 @@ fn c08_glue_record_boundary() {
         let mut fut = std::mem::ManuallyDrop::new(req.record_boundary());
         loop {
             polls += 1;
-            assert!(polls <= 4, "record_boundary must make progress");
+            assert!(polls <= 3, "record_boundary must make progress");
             let pinned = unsafe { Pin::new_unchecked(&mut *fut) };
             match poll_once(pinned) {
                 Poll::Pending => {
